@@ -262,8 +262,8 @@ fn main() {
     };
     let tier = args.tier;
     let zs = zones();
-    let offs: Vec<i32> = if tier == Tier::Thorough { vec![0, 60, -60, 3600, -3600, 19800, -34200, 50400, -43200, 86340, -86340] } else { vec![0, -34200, 86340] };
-    let times: Vec<(u32, u32)> = if tier == Tier::Thorough { vec![(0, 0), (39157, 500_000_000), (86399, 1_000_000_000), (86399, 999_999_999)] } else { vec![(39157, 999_999_999), (86399, 1_500_000_000)] };
+    let offs: Vec<i32> = if tier == Tier::Thorough { vec![0, 60, -60, 3600, -3600, 19800, -34200, 50400, -43200, 86340, -86340] } else { vec![0, -60, -1800, -34200, 86340] };
+    let times: Vec<(u32, u32)> = if tier == Tier::Thorough { vec![(0, 0), (39157, 500_000_000), (86399, 1_000_000_000), (86399, 999_999_999)] } else { vec![(39157, 999_999_999), (86399, 1_000_000_000), (86399, 1_500_000_000)] };
     const YCH: i64 = 25;
     let n_out = (10000 / YCH) as u64;
     let base: Vec<(i64, u32)> = vec![
